@@ -77,6 +77,20 @@ def crafted_items(tier):
     bw, crc, plain = bzgen.block_bits(blk)
     out.append(Item("crafted:100001_at_level2", bzfmt.stream_bytes([(bw, crc)], 2), True, plain, origin="bzgen.overflow_block"))
     out.append(Item("crafted:100001_at_level1", bzfmt.stream_bytes([(bw, crc)], 1), False, None, origin="bzgen.overflow_block"))
+    # the run that ends a block (terminated by EOB) overruns the block by far: an overflow, at any level
+    def runsyms(n):
+        out = []
+        while n > 0:
+            n -= 1
+            out.append(n & 1)
+            n >>= 1
+        return out
+    for n, level in ((2000000, 9), (1948576, 9), (3000000, 1)):
+        w = bzfmt.block_writer(runsyms(n) + [2], [7], 0, [[1, 2, 2], [2, 2, 1]], [0], 0x0BADC0DE)
+        out.append(Item("crafted:final_run_%d_at_level%d" % (n, level), bzfmt.stream_bytes([(w, 0x0BADC0DE)], level), False, None, origin="bzfmt.block_writer"))
+    # (the same after some literal symbols)
+    w = bzfmt.block_writer([2, 3, 2] + runsyms(1500000) + [4], [65, 66, 67], 0, [[2, 2, 2, 3, 3], [2, 2, 2, 3, 3]], [0], 0x0BADC0DE)
+    out.append(Item("crafted:literals_then_final_run_1500000", bzfmt.stream_bytes([(w, 0x0BADC0DE)], 9), False, None, origin="bzfmt.block_writer"))
     # a run whose length wraps a 32-bit counter (RUNB, 31 x RUNA = 2^32) is an overflow, not an empty run;
     # more than 128 bytes follow, so the decoder's fast path sees it
     used = [65, 66, 67]
@@ -92,6 +106,20 @@ def crafted_items(tier):
     s9 = bzfmt.stream_bytes([(bwa, crca)], 9)
     out.append(Item("crafted:9_then_overflowing_1", s9 + bzfmt.stream_bytes([(bw, crc)], 1), False, None, origin="bzgen.overflow_block"))
     out.append(Item("crafted:9_then_2", s9 + bzfmt.stream_bytes([(bw, crc)], 2), True, b"level nine stream\n" * 10 + plain, origin="bzgen.overflow_block"))
+    return out
+
+
+def tail_files():
+    """Small valid files for the truncation sweep chosen for their last bytes: for every length residue mod 4 (the reader
+    pads the last 32-bit word with zero bytes) one file that ends in 0x00 and one that ends in 0xFF - what the padding
+    could be mistaken for.  Found by search over tiny libbz2 outputs."""
+    out = []
+    # (k, level) found once by searching k = 0, 1, 2, ... with level = 1 + (k + 1) % 9; re-checked here
+    for k, level in ((4, 6), (10, 3), (116, 1), (1002, 5), (9009, 2), (12140, 1), (31724, 1), (104131, 3)):
+        plain = b"tail %d\n" % k
+        z = bz2.compress(plain, level)
+        if z[-1] in (0x00, 0xFF):
+            out.append(Item("tail:len%%4=%d,last=%02x" % (len(z) % 4, z[-1]), z, True, plain, origin="libbz2 (searched)"))
     return out
 
 
